@@ -48,23 +48,19 @@ theorem claim_travels (okPath : List Char → Bool) (v : PyVal) (h : InClaim okP
   induction h with
   | scalar v c _ ht hf => exact ⟨_, ht, .basic v c hf⟩
   | bytearray bs => exact ⟨.array (.basic .y), by simp [inferTy], .bytearray bs⟩
-  | listEmpty => exact ⟨.array .variant, by simp [inferTy], .list [] _ (by simp)⟩
+  | listEmpty => exact ⟨.array .variant, by simp [inferTy], .list [] _ (by simp [Ty.notEntry]) (by simp)⟩
   | listSame x xs hsame _ _ hshare ihx ihxs =>
       obtain ⟨el, hel, htx⟩ := ihx
-      refine ⟨.array el, by simp [inferTy, hsame, hel], .list _ _ ?_⟩
+      refine ⟨.array el, by simp [inferTy, hsame, hel], .list _ _ (inferTy_notEntry x el hel) ?_⟩
       intro e he
       rcases List.mem_cons.mp he with rfl | he
       · exact htx
-      · rcases hshare e he with hs | ⟨_, c, hc, hfit⟩
-        · obtain ⟨t, ht, htr⟩ := ihxs e he
-          rw [hs, hel] at ht
-          cases ht
-          exact htr
-        · rw [hel] at hc
-          cases hc
-          exact .basic e c hfit
+      · obtain ⟨t, ht, htr⟩ := ihxs e he
+        rw [hshare e he, hel] at ht
+        cases ht
+        exact htr
   | listMixed x xs hmixed _ _ ihx ihxs =>
-      refine ⟨.array .variant, by simp [inferTy, hmixed], .list _ _ ?_⟩
+      refine ⟨.array .variant, by simp [inferTy, hmixed], .list _ _ (by simp [Ty.notEntry]) ?_⟩
       intro e he
       rcases List.mem_cons.mp he with rfl | he
       · obtain ⟨t, ht, htr⟩ := ihx
@@ -74,12 +70,15 @@ theorem claim_travels (okPath : List Char → Bool) (v : PyVal) (h : InClaim okP
   | tuple xs hne _ ih =>
       obtain ⟨ts, hts⟩ := inferTys_of_all xs (fun e he => by obtain ⟨t, ht, _⟩ := ih e he; exact ⟨t, ht⟩)
       obtain ⟨hl, hi⟩ := inferTys_index xs ts hts
-      refine ⟨.struct ts, by simp [inferTy, hts], .tuple xs ts hl ?_⟩
-      intro i h1 h2
-      obtain ⟨t, ht, htr⟩ := ih xs[i] (List.getElem_mem h1)
-      rw [hi i h1 h2] at ht
-      cases ht
-      exact htr
+      cases xs with
+      | nil => exact absurd rfl hne
+      | cons x xs' =>
+        refine ⟨.struct ts, by simp [inferTy, hts], .tuple _ ts hl ?_⟩
+        intro i h1 h2
+        obtain ⟨t, ht, htr⟩ := ih (x :: xs')[i] (List.getElem_mem h1)
+        rw [hi i h1 h2] at ht
+        cases ht
+        exact htr
   | dictEmpty => exact ⟨.array (.dict (.basic .s) .variant), by simp [inferTy], .dict [] _ _ (by simp) (by simp)⟩
   | dictSame k v rest kc hsame hkt hkf _ _ hshare ihv ihrest =>
       obtain ⟨vt, hvt, htv⟩ := ihv
@@ -90,14 +89,10 @@ theorem claim_travels (okPath : List Char → Bool) (v : PyVal) (h : InClaim okP
       · intro kv hkv
         rcases List.mem_cons.mp hkv with rfl | hkv
         · exact htv
-        · rcases hshare kv hkv with hs | ⟨_, c, hc, hfit⟩
-          · obtain ⟨t, ht, htr⟩ := ihrest kv hkv
-            rw [hs, hvt] at ht
-            cases ht
-            exact htr
-          · rw [hvt] at hc
-            cases hc
-            exact .basic _ c hfit
+        · obtain ⟨t, ht, htr⟩ := ihrest kv hkv
+          rw [hshare kv hkv, hvt] at ht
+          cases ht
+          exact htr
   | dictMixed k v rest kc hmixed hkt hkf _ _ ihv ihrest =>
       have hk := inferLastKey_of_all (.basic kc) ((k, v) :: rest) (by simp) hkt
       refine ⟨.array (.dict (.basic kc) .variant), by simp [inferTy, hk, hmixed], .dict _ _ _ ?_ ?_⟩
